@@ -260,6 +260,9 @@ theorem exec_ok (σ : Sess W) (h : SessOK σ) (op : Op W) : SessOK (exec σ op).
       simp only [contains_iff] at hc
       exact ⟨h.wf, h.nodes, h.ends, search s none cut hc⟩
     · exact h
+  | saveLoad =>
+    simp only [exec]
+    split <;> exact h
 
 theorem new_ok (n : Nat) : SessOK (Sess.new n : Sess W) := by
   refine ⟨?_, ?_, ?_, ?_⟩
